@@ -308,6 +308,125 @@ mod proofs {
       }
     };
   }
+  /// by-value variant: the matcher struct lives on the harness stack (not boxed into a
+  /// `Rule`), so the symbolic engine can constant-fold its inner rule's variant.
+  /// Shapes (all 9 pre-order shapes of <= 4 nodes) and the target node are enumerated by
+  /// concrete loops -- a symbolic shape makes every navigation step a symbolic array read
+  /// and exhausted 30 GB in array post-processing; kinds and field labels of every node
+  /// (what decides goal / stop / field) are symbolic.
+  fn rel_sem_struct(rel: Rel, stop: Stop, field: bool, nmax: usize) {
+    use ast_grep_config::verif_hooks::{relational, StopBy};
+    use ast_grep_core::matcher::KindMatcher;
+    let mut kinds = [K_IDENT; MAXN];
+    let mut fields = [0u16; MAXN];
+    let mut i = 0;
+    while i < MAXN {
+      if i < nmax {
+        let k: u16 = kani::any();
+        kani::assume(k == K_IDENT || k == K_NUMBER || k == K_COMMENT);
+        kinds[i] = k;
+        if field && kani::any() {
+          fields[i] = 1;
+        }
+      }
+      i += 1;
+    }
+    let (pv, ns, cnt) = all_shapes(nmax);
+    let mut sidx = 0;
+    while sidx < cnt {
+      let n = ns[sidx];
+      let parent = pv[sidx];
+      let mut d = TreeData::from_parents(n, &parent);
+      let mut ok_fields = true;
+      let mut i = 0;
+      while i < MAXN {
+        if i < n {
+          d.nodes[i].kind = kinds[i];
+          d.nodes[i].field = fields[i];
+        }
+        i += 1;
+      }
+      // the reference's precondition: a field labels at most one child of a node
+      let mut a = 1;
+      while a < n {
+        let mut b = a + 1;
+        while b < n {
+          if parent[a] == parent[b] && fields[a] == 1 && fields[b] == 1 {
+            ok_fields = false;
+          }
+          b += 1;
+        }
+        a += 1;
+      }
+      let total = d.layout(&[1; MAXN], &[0; MAXN]) as usize;
+      d.fix_named_counts();
+      if ok_fields {
+        let g = mk_grep(&SRC_X[..total], d.clone());
+        let mut x = 0;
+        while x < n {
+          let goal = Rule::Kind(KindMatcher::from_id(K_NUMBER));
+          let stop_by = match stop {
+            Stop::Neighbor => StopBy::Neighbor,
+            Stop::End => StopBy::End,
+            Stop::Rule => StopBy::Rule(Rule::Kind(KindMatcher::from_id(K_COMMENT))),
+          };
+          let f = if field { Some(1u16) } else { None };
+          let node = node_at(&g, x);
+          let got = match rel {
+            Rel::Has => {
+              let m = relational::has_struct(goal, stop_by, f);
+              let r = m.match_node(node).is_some();
+              std::mem::forget(m);
+              r
+            }
+            Rel::Inside => {
+              let m = relational::inside_struct(goal, stop_by, f);
+              let r = m.match_node(node).is_some();
+              std::mem::forget(m);
+              r
+            }
+            Rel::Follows => {
+              let m = relational::follows_struct(goal, stop_by);
+              let r = m.match_node(node).is_some();
+              std::mem::forget(m);
+              r
+            }
+            Rel::Precedes => {
+              let m = relational::precedes_struct(goal, stop_by);
+              let r = m.match_node(node).is_some();
+              std::mem::forget(m);
+              r
+            }
+          };
+          let want = eval(rel, stop, field, &d, &parent, n, x);
+          if n == nmax && x == n - 1 {
+            kani::cover!(want);
+            kani::cover!(!want);
+          }
+          assert!(got == want);
+          x += 1;
+        }
+        std::mem::forget(g);
+      }
+      sidx += 1;
+    }
+  }
+
+  macro_rules! rel_struct {
+    ($name:ident, $rel:expr, $stop:expr, $field:expr, $n:expr) => {
+      #[kani::proof]
+      #[kani::unwind(6)]
+      #[kani::stub(regex::Regex::new, crate::stub_regex_new)]
+      fn $name() {
+        rel_sem_struct($rel, $stop, $field, $n);
+      }
+    };
+  }
+  rel_struct!(c05s_has_rule_n4, Rel::Has, Stop::Rule, false, 4);
+  rel_struct!(c05s_inside_field_end_n4, Rel::Inside, Stop::End, true, 4);
+  rel_struct!(c05s_follows_end_n4, Rel::Follows, Stop::End, false, 4);
+  rel_struct!(c05s_precedes_rule_n4, Rel::Precedes, Stop::Rule, false, 4);
+
   macro_rules! rel_direct {
     ($name:ident, $rel:expr, $stop:expr, $field:expr, $n:expr) => {
       #[kani::proof]
